@@ -142,6 +142,18 @@ def polyakd (γ : Coef) : Spec :=
     init := [(polyakInit, false), (polyakStep γ, true)],
     metrics := [polyakMetric γ] }
 
+/-- `adaptive_methods.polyak_steps_in_function_value`: same leaves as `polyakd`; constraints `f0 − f⋆ ≤ 1` and the Polyak rule
+`‖g0‖² = 2L(2 − Lγ)(f0 − f⋆)` (an equality); metric `f(x1) − f⋆` -/
+def polyakfInit : EDict := EDict.subConst (EDict.sub [(EKey.f 1, 1)] [(EKey.f 0, 1)]) 1
+def polyakfStep (L γ : Coef) : EDict :=
+  EDict.sub (PDict.sq [(2, 1)]) (EDict.smul (2 * L * (2 - L * γ)) (EDict.sub [(EKey.f 1, 1)] [(EKey.f 0, 1)]))
+def polyakfMetric : EDict := EDict.sub [(EKey.f 2, 1)] [(EKey.f 0, 1)]
+
+def polyakf (L γ : Coef) : Spec :=
+  { samples := [([(0, 1)], [], [(EKey.f 0, 1)]), ([(1, 1)], [(2, 1)], [(EKey.f 1, 1)]), (gdlNext γ, [(3, 1)], [(EKey.f 2, 1)])],
+    init := [(polyakfInit, false), (polyakfStep L γ, true)],
+    metrics := [polyakfMetric] }
+
 /-! ### specifications without a theorem attached (correspondence only): the script builds exactly this model -/
 
 /-- `unconstrained_convex_minimization.gradient_descent`: `x⋆ ↦ 0` (value leaf 0), `x0 ↦ 1`; `gradient(x_k)` creates `g_k ↦ 2+k` and
